@@ -404,6 +404,8 @@ func runC07(c *eng.Ctx) {
 	})
 
 	// ---- 9. every chain that reaches a data flush establishes meta -> index -> data ---------------------------------------------
+	c.Rule("ORDER", "index.metricMetaDatabase.Flush{counters<dictionaries}", func() { metaFlushCountersFirst(c) })
+
 	c.Rule("ORDER", "tsdb{flush-chains}", func() {
 		owner(c, "call of dataFamily.flushMemoryDatabase", eng.AnyCallTo(dfT+".flushMemoryDatabase"), []string{dfT + ".Flush", dfT + ".Close"}, 3)
 		owner(c, "call of DataFamily.Flush", eng.AnyCallTo(dfT+".Flush", "tsdb.DataFamily.Flush"), []string{"tsdb.dataFlushChecker.flushShard"}, 1)
